@@ -25,6 +25,7 @@ def cfg_device(I, w, b, name, keys, conf_holder):
                                   "describe_configuration": lambda I_, o, a, k: {"gain": {"dtype": "number", "shape": [], "source": name}},
                                   "describe": lambda I_, o, a, k: {kk: {"dtype": "number", "shape": [], "source": name} for kk in keys},
                                   "subscribe": lambda I_, o, a, k: conf_holder.setdefault("callbacks", []).append(a[0]),
+                                  "clear_sub": lambda I_, o, a, k: conf_holder.__setitem__("callbacks", [c for c in conf_holder.get("callbacks", []) if c is not a[0]]),
                                   "read": lambda I_, o, a, k: {kk: {"value": I_.w.real(f"mon_{kk}", fresh=True), "timestamp": I_.w.real("mon_ts", fresh=True)} for kk in keys}}})
     return d
 
